@@ -30,6 +30,7 @@ TRUSTED_BASE = [
     "stdlib axioms reported by Print Assumptions: sig_not_dec, sig_forall_dec, functional_extensionality_dep, classic (Reals/Coquelicot); none declared by this development",
     "extraction: ExtrOcamlBasic only (bool/option/list/prod/unit/sumbool), no Extract Constant; OCaml 4.13 float ops instantiate NumOps (ocaml/wire.ml)",
     "correspondence harness (Python, this run): generators, tolerances, wrappers",
+    "source-translation tie (properties with kernels): harness/srctie.py (meaning given to the Python subset: unbounded ints, real floats with nan as None, row-wise reading of tensor code), the kernel table harness/srctie_kernels.py, coq/theory/TieLib.v",
     "modelled not verified: IEEE rounding, PyTorch kernels, torch RNG, torch.save/load, numpy helpers",
 ]
 
